@@ -112,7 +112,7 @@ class _WidenCounter(logging.Handler):
 WIDEN = _WidenCounter()
 _gl = logging.getLogger('graphtage')
 _gl.addHandler(WIDEN)
-_gl.propagate = False
+# (propagation stays on: the command line's own logging configuration must keep working under the harness)
 
 
 # -- deterministic loop budget ---------------------------------------------------------------------------------------
